@@ -442,8 +442,42 @@ def _is_conflict_flag(b, c, cbb):
     return d.get("k") == "call" and d.get("bb") == cbb
 
 
+def _requires_watch_predicate(ctx, crate, R):
+    """Clause::requires watches the first candidate that is *not assigned false* and reports a conflict only if there is none: a
+    candidate that is already true satisfies the clause.  A predicate that asks for an *unassigned* candidate (seed C14-13) flags a
+    satisfied requirement as conflicting - harmless restart for a hard requirement, silent rejection of a soft one."""
+    root = CLAUSE + "::requires"
+    n = 0
+    for cb in crate.bodies:
+        if cb.kind != "Closure" or not cb.root or strip_generics(cb.root) != root:
+            continue
+        names = [t["f"]["name"] for i, t in cb.calls() if t.get("f")]
+        if "assigned_value" not in names:
+            continue
+        n += 1
+        # positive evidence of the wrong question: a comparison with anything but Some(false), or an assigned / unassigned test.
+        # (Other equivalent shapes - a `match` on the Option<bool> - are not pinned down.)
+        cmp_other = False
+        for i, t in cb.calls():
+            f = t.get("f")
+            if f and f["name"] in ("ne", "eq") and len(t["args"]) == 2:
+                for a in t["args"]:
+                    d, _ = q.origin_thru(cb, a)
+                    pr = q.promoted_rvalue(crate, cb, d)
+                    if pr is not None and pr.get("k") == "agg":
+                        is_some_false = pr.get("variant") == "Some" and pr["ops"] and pr["ops"][0].get("k") == "const" \
+                            and str(pr["ops"][0].get("v")).lower() in ("false", "0")
+                        if not is_some_false:
+                            cmp_other = True
+        bad = set(names) & {"is_none", "is_some", "is_some_and", "is_none_or"}
+        ctx.ob(R, root, "watch-candidate-is-first-not-false", not cmp_other and not bad, cb.loc(),
+               "the candidate predicate asks `not assigned false` - it does not test for unassigned / compare with Some(true) or None (calls: %s)" % sorted(set(names)))
+    ctx.floor(R, "candidate predicates over the trail in Clause::requires", n, 1)
+
+
 def clause_shape(ctx, crate, crs, tag):
     R = "clause-shape" + tag
+    ctx.guard(R, _requires_watch_predicate, ctx, crate, R)
     # (a) constructors in impl Clause
     ctor_lits = {}
     for name, variant in CTOR_FIELDS.items():
